@@ -340,6 +340,8 @@ func runC08(c *Config, r *Report) {
 	c08R3(ic, r)
 	c08R5(ic, r)
 	c08R6(ic, r)
+	c08R8(ic, r)
+	copiersAlwaysCopy(ic, r, "R08.7")
 	checkBinPkgOwnership(ic, r, "R08.4")
 	if c.Tier == "thorough" {
 		ic386, err := loadInterp(c, false, "GOARCH=386")
@@ -1243,5 +1245,53 @@ func c08R6(ic *IC, r *Report) {
 	}
 	if nBad == 0 {
 		r.Pass("R08.6", "runtime/no-check-then-act-on-channels", "", fmt.Sprintf("%d blocking channel operations in run-time closures, none conditional on the channel's Len or Cap", n))
+	}
+}
+
+func init() {
+	ruleText["R08.7"] = "= R07.7 shared: the argument copier used for go (and defer) statements copies every settable value, whatever its kind: the goroutine's arguments are fixed when the statement executes"
+	ruleText["R08.8"] = "the generator of select performs no channel operation of its own (TryRecv, TrySend, Recv, Send): the communication is chosen by reflect.Select alone, uniformly at random among the ready ones, so no clause is starved by an earlier one"
+}
+
+// c08R8: round-5 seed, a "fast path" trying the clauses in source order before reflect.Select.
+func c08R8(ic *IC, r *Report) {
+	info := ic.Info
+	n := 0
+	for _, name := range sortedKeys(ic.F) {
+		fi := ic.F[name]
+		if fi.Decl.Body == nil || len(callsIn(info, fi.Decl.Body, true, "reflect.Select")) == 0 {
+			continue
+		}
+		if fi.Obj == nil || fi.Decl.Recv != nil {
+			continue
+		}
+		sig := fi.Obj.Type().(*types.Signature)
+		if sig.Params().Len() != 1 || !isNamedPtr(sig.Params().At(0).Type(), "node") {
+			continue
+		}
+		// the generator of the select statement: its Select takes a vector with one entry per clause
+		// (the single-operation generators build a fixed two-case vector)
+		isStmt := false
+		ast.Inspect(fi.Decl.Body, func(m ast.Node) bool {
+			if c, ok := m.(*ast.CallExpr); ok {
+				if id := identOf(c.Fun); id != nil && id.Name == "make" && len(c.Args) >= 2 && strings.Contains(types.ExprString(c.Args[0]), "SelectCase") {
+					isStmt = true
+				}
+			}
+			return true
+		})
+		if !isStmt {
+			continue
+		}
+		n++
+		var own []string
+		for _, c := range callsIn(info, fi.Decl.Body, true, "reflect.Value.TryRecv", "reflect.Value.TrySend", "reflect.Value.Recv", "reflect.Value.Send") {
+			own = append(own, shortKey(objKey(calleeOf(info, c)))+" at "+ic.pos(c.Pos()))
+		}
+		r.Check(len(own) == 0, "R08.8", name+"/communication-chosen-by-reflect.Select-only", ic.pos(fi.Decl.Pos()), "no channel operation outside reflect.Select",
+			"the generator of the select statement performs channel operations itself ("+strings.Join(own, ", ")+"): a clause tried first in source order wins whenever it is ready, so a later clause can be starved for ever (compiled Go chooses uniformly among the ready communications) and the operation is not raced against the cancellation channel")
+	}
+	if n == 0 {
+		r.Errorf("R08.8: the generator of the select statement (reflect.Select over a made vector of cases) was not found")
 	}
 }
